@@ -11,8 +11,8 @@ import (
 	"verif/internal/crash"
 )
 
-// faultPhase injects an I/O error (ENOSPC; EIO for fsync) into every store-mutating system call of each
-// command, one at a time, on the production binary. Only the clause "an acknowledged mutation is in effect"
+// faultPhase injects an I/O error into every system call on a store file of each command (ENOSPC into the
+// mutating ones, EIO into opens for reading, flock, fsync and close), one at a time, on the production binary. Only the clause "an acknowledged mutation is in effect"
 // is asserted: if the command still exits 0, the observable state must be exactly the state after an
 // uninterrupted run. (What a failing command may leave behind under I/O errors is not asserted.)
 func faultPhase(env *core.Env, check string, pre core.Store, cmds []crashCmd) map[string]interface{} {
@@ -33,9 +33,15 @@ func faultPhase(env *core.Env, check string, pre core.Store, cmds []crashCmd) ma
 		}
 		after := core.ObserveW(w, root)
 		normA := after.Norm(after.TitleMap())
-		for _, target := range ref.Mutating() {
+		for target := range ref.Calls {
 			call := ref.Calls[target]
+			if call.Ret < 0 {
+				continue // fails in the reference run already (a probe for a file that does not exist)
+			}
 			errno := "ENOSPC"
+			if !call.Mutating {
+				errno = "EIO" // reads, locks, syncs and closes on store files
+			}
 			pre.Materialize(root)
 			t, err := crash.Run(env.Prod, root, c.Req, fmt.Sprintf("%s:error=%s:when=%d", call.Name, errno, call.NthOfName), scratch)
 			if err != nil {
@@ -59,7 +65,7 @@ func faultPhase(env *core.Env, check string, pre core.Store, cmds []crashCmd) ma
 		}
 	})
 	return map[string]interface{}{"errors_injected": injected, "command_still_exited_0": acked, "command_failed": rejected, "not_landed": notLanded,
-		"rule": "ENOSPC injected (strace) into each store-mutating system call of each command, one at a time; asserted: exit 0 => observable state equals the uninterrupted run's"}
+		"rule": "ENOSPC (mutating calls) / EIO (open for reading, flock, fsync, close) injected by strace into each system call on a store file of each command, one at a time; asserted: exit 0 => observable state equals the uninterrupted run's"}
 }
 
 func init() { replayers["io-error"] = replayIOError }
